@@ -423,6 +423,8 @@ class Interp:
         # real Python callables
         name = getattr(fn, "__qualname__", None) or getattr(fn, "__name__", None) or repr(fn)
         mod = getattr(fn, "__module__", None)
+        if isinstance(mod, str) and (mod.startswith("pyvc.") or mod.startswith("contracts.")):
+            return fn(*args, **kwargs)  # operations of the symbolic value classes / sidecar helpers run natively
         for key in ("%s.%s" % (mod, name), name):
             if key in self.calls:
                 return self.calls[key](self, *args, **kwargs)
